@@ -55,7 +55,7 @@ func extentOf2(a, b geom.Geom) (mnx, mny, mxx, mxy float64, ok bool) {
 	return
 }
 
-var tinyExps = []int{-30, -40, -40, -45, -60, -60, -400, -24, -900}
+var tinyExps = []int{-30, -40, -40, -45, -60, -60, -400, -24, -900, -1010, -1018}
 
 // quadrantCases: see the file comment. Translations are by integers / half-integers of small size (exact on the
 // half-integer grid), the scale is a power of two (exact).
@@ -96,9 +96,15 @@ func quadrantCorpus(emit func(l geom.Geom, p geom.Geom)) {
 	pg := geom.MultiPolygon{{
 		{{X: 12.5, Y: 7.5}, {X: 6.5, Y: 8.5}, {X: 4.5, Y: 5.5}, {X: 3.5, Y: 4.5}, {X: 9.5, Y: -0.5}, {X: 11.5, Y: 0.5}, {X: 13.5, Y: 1.5}, {X: 14.5, Y: 1.5}},
 		{{X: 9.5, Y: 4.5}, {X: 10.5, Y: 4.5}, {X: 10.5, Y: 6.5}}}}
-	for _, k := range []int{0, -30, -40, -60, -400} {
+	// 2^-1003 … 2^-1024: the largest coordinate is below 2^-1000 but still a normal number (the guard of clipLine was
+	// 2^-1000 before fix; at 2^-1024 some coordinates are subnormal)
+	for _, k := range []int{0, -30, -40, -60, -400, -1003, -1010, -1018, -1024} {
 		f := math.Ldexp(1, k)
 		for _, g := range []float64{0, 1} {
+			if g == 0 {
+				emit(shapes.ScaleGeom(tc, f), shapes.ScaleGeom(sq, f))
+				emit(shapes.ScaleGeom(ml, f), shapes.ScaleGeom(pg, f))
+			}
 			emit(shapes.ScaleGeom(affine(tc, 1, -5-g, -3-g), f), shapes.ScaleGeom(affine(sq, 1, -5-g, -3-g), f))
 			emit(shapes.ScaleGeom(affine(ml, 1, -17-g, -10-g), f), shapes.ScaleGeom(affine(pg, 1, -17-g, -10-g), f))
 			emit(shapes.ScaleGeom(affine(ml[1], 1, -17-g, 2+g), f), shapes.ScaleGeom(affine(pg, 1, -17-g, 2+g), f))
